@@ -4,12 +4,12 @@ from rgen import rand_model
 import fbcheck
 from ai_edge_quantizer import quantizer
 from ai_edge_quantizer.utils import tfl_interpreter_utils as iu
-R = '/repo/ai_edge_quantizer/recipes/'
+import os; R = os.environ.get('AEQ_REPO', '/repo') + '/ai_edge_quantizer/recipes/'
 lo, hi = int(sys.argv[1]), int(sys.argv[2]); rec = sys.argv[3]
 rows = []
 for seed in range(lo, hi):
     try:
-        m = rand_model(seed, allow_unsupported=False, allow_emb=False); it = iu.create_tfl_interpreter(m); rr = it.get_signature_runner(); r2 = np.random.default_rng(3)
+        m = rand_model(seed, allow_unsupported=False, allow_emb=False, allow_bmm_const=False); it = iu.create_tfl_interpreter(m); rr = it.get_signature_runner(); r2 = np.random.default_rng(3)
         d = [{k: r2.normal(size=dd['shape']).astype(np.float32) for k, dd in rr.get_input_details().items()} for _ in range(1)]
         fo = iu.invoke_interpreter_signature(it, d[0])
         amax = max(float(np.max(np.abs(it.get_tensor(t['index'])))) for t in it.get_tensor_details() if t['dtype'] == np.float32 and t['name'])
